@@ -423,6 +423,56 @@ Theorem c10_f10_refuted : exists cfg evs,
 Proof. exists w_scfg, w_f10. split; vm_compute; reflexivity. Qed.
 Print Assumptions c10_f10_refuted.
 
+(* CLIENT, identifiers of FINISHED TCP flows.  A TCP flow that is over (its MuxWrapper has done noread + nowrite)
+   leaves `channels[n] = None` behind; next_channel tests `not self.channels.get(n)`, so such an identifier is
+   FREE.  (1) the end of a TCP flow puts TCP_STOP_SENDING + TCP_EOF on the wire, frees exactly that identifier
+   and touches nothing else, in every reachable state; *)
+Theorem c10_tcp_end_releases_identifier :
+  forall cfg c tch c1 o1,
+  cinv cfg c -> alookup N.eqb tch (c_chan c) = Some KTcp ->
+  cstep all_fixed cfg c (ETcpEnd tch) = Ok (c1, o1) ->
+  o1 = [OFrame tch CMD_TCP_STOP_SENDING []; OFrame tch CMD_TCP_EOF []] /\ cinv cfg c1 /\ c_occ c1 tch = false /\
+  c_chani c1 = c_chani c /\ c_dns c1 = c_dns c /\ c_udp c1 = c_udp c /\
+  (forall ch0, ch0 <> tch -> alookup N.eqb ch0 (c_chan c1) = alookup N.eqb ch0 (c_chan c)).
+Proof. exact tcp_end_then_free. Qed.
+Print Assumptions c10_tcp_end_releases_identifier.
+
+(* (2) "each captured DNS datagram is forwarded": in every reachable state, if ANY of the 1024 identifiers the
+   cursor visits next is free (k-th one, k < 1024; the cursor wraps at MAX_CHANNEL), the query goes out as
+   exactly one DNS_REQ with the captured bytes (then the sweep's UDP_CLOSEs); *)
+Theorem c10_query_forwarded_if_identifier_free :
+  forall cfg now src dst payload c k,
+  cfg_ok cfg -> cinv cfg c -> (cc_method cfg = MTproxy -> dst <> None) ->
+  (k < TRIES)%nat -> c_occ c (chan_iter (S k) (cc_maxc cfg) (c_chani c)) = false ->
+  exists ch c', ondns all_fixed cfg now src dst payload c =
+                Ok (c', OFrame ch CMD_DNS_REQ (takeN BUFSIZE payload) :: closes now c).
+Proof. exact ondns_forwards_if_free. Qed.
+Print Assumptions c10_query_forwarded_if_identifier_free.
+
+(* (3) together: a query captured after a TCP flow has finished is forwarded whenever the cursor reaches that
+   flow's identifier within its 1024 steps - however many other identifiers are taken, also after a wrap *)
+Theorem c10_query_forwarded_after_tcp_end :
+  forall cfg c tch c1 o1 now src dst payload k,
+  cfg_ok cfg -> cinv cfg c -> alookup N.eqb tch (c_chan c) = Some KTcp ->
+  cstep all_fixed cfg c (ETcpEnd tch) = Ok (c1, o1) ->
+  (cc_method cfg = MTproxy -> dst <> None) ->
+  (k < TRIES)%nat -> chan_iter (S k) (cc_maxc cfg) (c_chani c1) = tch ->
+  exists ch c', ondns all_fixed cfg now src dst payload c1 =
+                Ok (c', OFrame ch CMD_DNS_REQ (takeN BUFSIZE payload) :: closes now c1).
+Proof. exact query_after_tcp_end. Qed.
+Print Assumptions c10_query_forwarded_after_tcp_end.
+
+(* the hypotheses are satisfiable, and the wrap matters: MAX_CHANNEL 2, both identifiers used by TCP flows, one
+   ends, the next two queries: the first re-uses identifier 1 after the wrap, the second finds nothing free *)
+Example c10_finished_tcp_identifier_reused :
+  snd (fst (crun all_fixed {| cc_method := MBase; cc_maxc := 2; cc_family := 2 |} c_init
+        [ETcp 100 2 w_a1; ETcp 100 2 w_a1; ETcpEnd 1; ETcpEnd 7; EDns 101 w_a1 None ["q"%char]; EDns 101 w_a1 None ["r"%char]])) =
+  [[OFrame 1 CMD_TCP_CONNECT (dec 2 ++ comma :: fst w_a1 ++ comma :: dec (snd w_a1))];
+   [OFrame 2 CMD_TCP_CONNECT (dec 2 ++ comma :: fst w_a1 ++ comma :: dec (snd w_a1))];
+   [OFrame 1 CMD_TCP_STOP_SENDING []; OFrame 1 CMD_TCP_EOF []]; [];
+   [OFrame 1 CMD_DNS_REQ ["q"%char]]; []].
+Proof. vm_compute. reflexivity. Qed.
+
 (* ---- non-vacuity ---- *)
 Example c10_init_reachable : cinv w_cfgN c_init.
 Proof. exact (cinv_init w_cfgN). Qed.
